@@ -1,6 +1,7 @@
 import Logrange.Proofs.WireRT
 import Logrange.Proofs.WriteLoopM
 import Logrange.Proofs.WritersLts
+import Logrange.Proofs.JIterObs
 /-!
 # C01 — Acknowledged writes are read back intact, exactly once, in write order
 
@@ -44,12 +45,14 @@ example : (⟨5, ofAscii "hi\x00", [1, 107, 1, 118]⟩ : Event).WF := by
 parser accepts, every list of fewer than 2³² events (any timestamps, any message bytes incl. empty, any per-event tag and
 field text), draining the server-side iterator over the client's packet yields the tags and, per event, the same
 timestamp and message and the fields `wpIterator.Get` builds (`storedModel`). `parseKV` — the field text parser — is
-arbitrary. -/
+arbitrary. If `init` validates the packet first (regenerated fact; proposed repair of F20b/F20c) the events' own field texts must
+parse — otherwise the packet is rejected (`repaired_init_rejects`). -/
 theorem packet_roundtrip (parseKV : Bytes → Option Bytes) (tags flds wf : Bytes) (evs : List WEvent)
     (ht : Small tags) (hf : Small flds) (hp : parseKV flds = some wf) (hn : evs.length < two32)
-    (hwf : ∀ e ∈ evs, e.WF) :
+    (hwf : ∀ e ∈ evs, e.WF)
+    (hval : Generated.C01.wpInitValidatesEvents = true → ∀ e ∈ evs, (parseKV e.fields).isSome) :
     wpDrain parseKV (wpEncode tags flds evs) = .ok (tags, evs.map (storedModel parseKV wf)) :=
-  wpDrain_encode parseKV tags flds wf evs ht hf hp hn hwf
+  wpDrain_encode parseKV tags flds wf evs ht hf hp hn hwf hval
 
 /-- the regenerated facts about `Fields.Concat` and `wpIterator.Get` put the write-level fields first -/
 theorem wpFields_eq (wf ef : Bytes) : wpFields wf ef = wf ++ ef := by
@@ -63,7 +66,7 @@ theorem packet_roundtrip_spec (parseKV : Bytes → Option Bytes) (tags flds wf :
     (ht : Small tags) (hf : Small flds) (hp : parseKV flds = some wf) (hn : evs.length < two32)
     (hwf : ∀ e ∈ evs, e.WF) (hok : ∀ e ∈ evs, (parseKV e.fields).isSome) :
     ∃ es, wpDrain parseKV (wpEncode tags flds evs) = .ok (tags, es) ∧ evs.map (storedSpec parseKV wf) = es.map some := by
-  refine ⟨_, packet_roundtrip parseKV tags flds wf evs ht hf hp hn hwf, ?_⟩
+  refine ⟨_, packet_roundtrip parseKV tags flds wf evs ht hf hp hn hwf (fun _ => hok), ?_⟩
   rw [List.map_map]
   apply List.map_congr_left
   intro e he
@@ -86,7 +89,10 @@ a chunk roll-over), every batch (any length incl. 0, any record sizes) `Service.
 * the positions of the stored records become the old ones followed by exactly the positions the `OnWrite`
   notifications announce, in order — so the notifications cover exactly the batch's records;
 * `WriteEvent.StartPos` is the position of the batch's first record and `EndPos` is one past its last record
-  (no event for an empty batch). -/
+  (no event for an empty batch);
+* every `OnWrite` notification carries the `iwrapper` hull of ALL records of the batch handed out up to the last record
+  it announces (`CallsHull`; by `iwrapper_hull_exact` that hull is their exact minimum and maximum timestamp — the hull
+  is never reset, so a later chunk's notification also covers the batch's earlier records). -/
 theorem write_appends (maxChunk : Nat) (hm : 1 ≤ maxChunk) (j : Journal) (batch : List Rec) :
     let r := serviceWrite maxChunk j batch
     r.2.err = false ∧
@@ -94,7 +100,8 @@ theorem write_appends (maxChunk : Nat) (hm : 1 ≤ maxChunk) (j : Journal) (batc
     positions r.1 = positions j ++ callPositions r.2.calls ∧
     (callPositions r.2.calls).length = batch.length ∧
     r.2.start = (callPositions r.2.calls).head? ∧
-    r.2.endp = (callPositions r.2.calls).getLast?.map after := by
+    r.2.endp = (callPositions r.2.calls).getLast?.map after ∧
+    CallsHull [] batch r.2.calls := by
   intro r
   have hr : r = serviceWriteLoop maxChunk (batch.length + 1) j batch {} {} := rfl
   have h := serviceWriteLoop_spec maxChunk hm (batch.length + 1) j batch {} {} (by omega)
@@ -105,7 +112,12 @@ theorem write_appends (maxChunk : Nat) (hm : 1 ≤ maxChunk) (j : Journal) (batc
     rw [positions_length, positions_length, e2]; simp
   have h2 : (positions r.1).length = (positions j).length + (callPositions nc).length := by
     rw [e4]; simp
-  refine ⟨e1, e2, by rw [hc]; exact e4, by rw [hc]; omega, by rw [hc]; simpa using e5, by rw [hc]; simpa using e6⟩
+  refine ⟨e1, e2, by rw [hc]; exact e4, by rw [hc]; omega, by rw [hc]; simpa using e5, by rw [hc]; simpa using e6, ?_⟩
+  obtain ⟨nc', f1, f2⟩ := serviceWriteLoop_hull maxChunk hm (batch.length + 1) j batch {} {} [] (by omega)
+    (by intro x rest' _; rfl)
+  rw [← hr] at f1
+  have : r.2.calls = nc' := by simpa using f1
+  rw [this]; exact f2
 
 example : (serviceWrite 20 [⟨[[1], [2]], 30⟩] [⟨5, [7, 7]⟩, ⟨0, [8]⟩, ⟨9, List.replicate 20 1⟩, ⟨1, [9]⟩]).2.calls.length = 2 := by decide
 
@@ -122,6 +134,13 @@ theorem iwrapper_hull_exact (r : Rec) (rs : List Rec) :
   have h := fold_exact rs (({} : IW).see r) [r] (see_first {} r rfl)
   rw [← hw] at h
   simpa [HullExact] using h
+
+/-- … in the vocabulary of `write_appends`: the hull a notification carries (`hullOf` of a non-empty prefix of the batch)
+is that prefix's exact minimum and maximum timestamp -/
+theorem notification_hull_exact (r : Rec) (rs : List Rec) :
+    (∀ x ∈ r :: rs, (hullOf (r :: rs)).minTs ≤ x.ts ∧ x.ts ≤ (hullOf (r :: rs)).maxTs) ∧
+    (∃ x ∈ r :: rs, x.ts = (hullOf (r :: rs)).minTs) ∧ (∃ x ∈ r :: rs, x.ts = (hullOf (r :: rs)).maxTs) :=
+  (iwrapper_hull_exact r rs).2
 
 /-- handing a record out twice (`Get` without `Next`, the peek at the end of each `Service.Write` iteration) is harmless -/
 theorem iwrapper_see_idempotent (w : IW) (r : Rec) : (w.see r).see r = w.see r := see_idem w r
@@ -206,7 +225,7 @@ theorem ackd_implies_servable_partial (parseKV : Bytes → Option Bytes) (maxChu
     ∃ j', serveWrite parseKV maxChunk j (wpEncode tags flds evs) = some (j', evs.map (storedModel parseKV wf)) ∧
       readEvents maxRec j' = some (old ++ evs.map (storedModel parseKV wf)) ∧
       wpDrainStrict parseKV (wpEncode tags flds evs) = some (tags, evs.map (storedModel parseKV wf)) := by
-  have hd := packet_roundtrip parseKV tags flds wf evs ht hf hp hn hwf
+  have hd := packet_roundtrip parseKV tags flds wf evs ht hf hp hn hwf (fun _ => hok)
   obtain ⟨e1, e2, _⟩ := write_appends maxChunk hm j ((evs.map (storedModel parseKV wf)).map recOf)
   refine ⟨(serviceWrite maxChunk j ((evs.map (storedModel parseKV wf)).map recOf)).1, ?_, ?_, ?_⟩
   · simp only [serveWrite, hd, e1, Bool.false_eq_true, ↓reduceIte]
@@ -219,8 +238,8 @@ theorem ackd_implies_servable_partial (parseKV : Bytes → Option Bytes) (maxChu
       obtain ⟨w, hw, rfl⟩ := List.mem_map.mp he
       exact hfit w hw)
     rw [e2, decodeAll_append, hold, hdata, this]; rfl
-  · obtain ⟨it, hi, h1, h2, h3, h4, _, _⟩ := wpInit_encode parseKV tags flds wf evs ht hf hp
-    simp only [wpDrainStrict, hi, h1, h2, h3, h4, Nat.mod_eq_of_lt hn, strictLoop_encode parseKV wf evs hwf hok]
+  · obtain ⟨it, hi, h1, h2, h3, h4, _, _⟩ := wpInit_encode parseKV tags flds wf evs ht hf hp hn hwf (fun _ => hok)
+    simp only [wpDrainStrict, hi, h1, h2, h3, h4, strictLoop_encode parseKV wf evs hwf hok]
     rfl
 
 /-- the parser used by the counterexamples: `w=1`-style texts are irrelevant; only `""` parses -/
@@ -234,21 +253,29 @@ theorem cex_oversize_record_acknowledged :
      | some (j', es) => decide (es = [⟨1, [1, 2, 3, 4, 5], []⟩] ∧ readEvents 12 j' = none)
      | none => false) = true := by decide
 
-/-- **Counterexample, class (ii)**: a request body cut one byte short of its second event is acknowledged with the
-first event only; the strict decoder rejects it. -/
-theorem cex_truncated_packet_acknowledged :
+/-- **Counterexample, class (ii)** (of the code as long as `init` does not validate the events: regenerated fact): a request
+body cut one byte short of its second event is acknowledged with the first event only; the strict decoder rejects it. -/
+theorem cex_truncated_packet_acknowledged : Generated.C01.wpInitValidatesEvents = false →
     let body := (wpEncode [] [] [⟨1, [65], [], []⟩, ⟨2, [66], [], []⟩]).dropLast
     (match serveWrite onlyEmpty 100 [] body with
      | some (_, es) => decide (es = [⟨1, [65], []⟩])
      | none => false) = true ∧ wpDrainStrict onlyEmpty body = none := by decide
 
-/-- **Counterexample, class (iii)**: an event whose field text does not parse is acknowledged and stored without its
-fields; the strict decoder rejects the packet. -/
-theorem cex_unparsable_fields_dropped :
+/-- **Counterexample, class (iii)** (same proviso): an event whose field text does not parse is acknowledged and stored
+without its fields; the strict decoder rejects the packet. -/
+theorem cex_unparsable_fields_dropped : Generated.C01.wpInitValidatesEvents = false →
     let body := wpEncode [] [] [⟨1, [65], [], ofAscii "oops"⟩]
     (match serveWrite onlyEmpty 100 [] body with
      | some (_, es) => decide (es = [⟨1, [65], []⟩])
      | none => false) = true ∧ wpDrainStrict onlyEmpty body = none := by decide
+
+/-- **The proposed repair** (`proposed-fixes/F20bc.diff`: `wpIterator.init` decodes every announced event and parses its field
+text before anything is written): once the source has it (regenerated fact), both witnesses are rejected as a whole — nothing
+is stored, not even the events before the bad one. -/
+theorem repaired_init_rejects : Generated.C01.wpInitValidatesEvents = true →
+    serveWrite onlyEmpty 100 [] (wpEncode [] [] [⟨1, [65], [], []⟩, ⟨2, [66], [], []⟩]).dropLast = none ∧
+    serveWrite onlyEmpty 100 [] (wpEncode [] [] [⟨1, [65], [], ofAscii "oops"⟩]) = none ∧
+    serveWrite onlyEmpty 100 [] (wpEncode [] [] [⟨1, [65], [], []⟩, ⟨2, [66], [], ofAscii "oops"⟩]) = none := by decide
 
 /-- hence the full clause does not hold of the code as it is -/
 theorem not_C01_full : ¬ C01_full := by
@@ -310,5 +337,46 @@ example :
       .chunkWrite 2, .getChunk 2, .chunkWrite 2, .getChunk 1, .chunkWrite 1]
     s.chunks.map (fun c => c.recs.map (fun r => (r.w, r.data))) = [[(1, [1]), (1, [2])], [(2, [9]), (1, [3])]] ∧
     (s.loc 1).active = false ∧ (s.loc 2).active = false := by decide
+
+/-! ## a reader at the tail racing a writer (finding #34, library `journal.JIterator`) -/
+
+/-- **Counterexample (F34)**: the new chunk's confirmed count grows from 0 to 150 between the chunk iterator's end-of-data
+decision and the `Count()` read the end-of-data position is built from (script `[0, 150]`): the first `Get` reports EOF with
+`Pos = (20, 150)` and none of the 150 records is returned by any of the next ten polls — the class predicate `grew` holds. -/
+theorem cex_count_grows_between_decision_and_position :
+    JIterObs.probe 3 [0, 150] 700 10 = ⟨true, (20, 150), [], true⟩ := by decide
+
+/-- the same observation one read earlier (script `[150]`) or with both reads of the end-of-data step equal (`[0, 0, 150]`):
+every record is delivered, in order (5 records here; the harness runs 150) -/
+theorem no_growth_inside_the_step_delivers_all :
+    (JIterObs.probe 3 [5] 60 10).delivered = List.range 5 ∧ (JIterObs.probe 3 [5] 60 10).grew = false ∧
+    (JIterObs.probe 3 [0, 0, 5] 60 10).delivered = List.range 5 ∧ (JIterObs.probe 3 [0, 0, 5] 60 10).grew = false := by
+  decide
+
+/-- the tail model (on which the next theorem is proved) and the general observation model agree on the scripts of the
+counterexamples (the harness compares them with each other and with the real iterator on every script it runs) -/
+theorem tail_model_agrees_on_witnesses :
+    JIterObs.Tail.probe [0, 150] 700 10 = JIterObs.probe 3 [0, 150] 700 10 ∧
+    JIterObs.Tail.probe [0, 0, 0, 2] 60 10 = JIterObs.probe 3 [0, 0, 0, 2] 60 10 ∧
+    JIterObs.Tail.probe [0, 1, 1, 3] 60 10 = JIterObs.probe 3 [0, 1, 1, 3] 60 10 := by decide
+
+/-- **No skip when every end-of-data step sees one count**: for a reader on the journal's last chunk, every sequence of
+confirmed-count observations that only grows, and any number of `Get`/`Next`/poll steps — if in every end-of-data step the
+count the position is built from equals the count the EOF decision was taken against (`c₁ = c₂`: the run is `stable`), then at
+every step what the reader has been handed is exactly the first `pos` records of the chunk, in stored order (a prefix of the
+stored sequence: nothing skipped, nothing repeated), and its position is that prefix's length. -/
+theorem tail_read_no_skip_partial (obs : Nat → Nat) (hm : JIterObs.Tail.Mono obs) (n : Nat) :
+    let r := JIterObs.Tail.run obs n {}
+    r.stable = true → r.delivered = List.range r.delivered.length ∧ r.s.pos = r.delivered.length := by
+  intro r hs
+  have h := JIterObs.Tail.run_inv obs hm n {} (JIterObs.Tail.init_inv obs) hs
+  exact ⟨h.pre, h.pos⟩
+
+/-- non-vacuity: a count that grows 0 → 1 → 3 *between* steps is stable and the reader gets all three records;
+the same growth inside an end-of-data step (`[0, 3]`) is not stable and the reader is left at position 3 with nothing -/
+example : let r := JIterObs.Tail.run (JIterObs.Tail.scriptObs [0, 0, 1, 1, 1, 1, 1, 3]) 8 {}
+    r.stable = true ∧ r.delivered = [0, 1, 2] := by decide
+example : let r := JIterObs.Tail.run (JIterObs.Tail.scriptObs [0, 3]) 8 {}
+    r.stable = false ∧ r.delivered = [] ∧ r.s.pos = 3 := by decide
 
 end Logrange.Props.C01
